@@ -1,8 +1,108 @@
-import DendroModel.Basic.Tree
-open DendroModel
+import DendroModel.Model.C12
+open DendroModel DendroModel.C12
+
+/-! Line protocol of `drv_c12`.
+
+`copy <root> <npre> (<i> <tgt>)* <nobj> (<kind> <cls> <nfields> (<name-hex> <val>)*)*`
+  val  = `r<index>` | `a<hex6 text>` (`a=` empty text);  tgt = `r<index>` | `+` (new taxon) | `=<i>` (same target as `i`)
+  kind = A annotable | X taxon | N namespace | S annotation set | P plain | T tuple
+  →  `ok <root'> <n_new> <obj>*` (the objects allocated by the copy, in allocation order, same encoding) | `err <what>`
+
+`extract <0|1> <tree tokens> <edge label>*n <taxon label>*n`  →  rendering of the extracted tree -/
+
+def parseVal (t : String) : Option Val :=
+  match t.toList with
+  | 'r' :: ds => (String.ofList ds).toNat?.map Val.ref
+  | 'a' :: rest =>
+    if rest == ['='] then some (.atom "") else (unhex6 rest).map (fun cs => Val.atom (String.ofList cs))
+  | _ => none
+
+def showVal : Val → String
+  | .ref i => "r" ++ toString i
+  | .atom s => if s.isEmpty then "a=" else "a" ++ String.ofList (hex6 s.toList)
+
+def parseKind : String → Option Kind
+  | "A" => some .annotable | "X" => some .taxon | "N" => some .namespace
+  | "S" => some .annset | "P" => some .plain | "T" => some .tuple
+  | _ => none
+
+def showKind : Kind → String
+  | .annotable => "A" | .taxon => "X" | .namespace => "N" | .annset => "S" | .plain => "P" | .tuple => "T"
+
+def parseFieldsN : Nat → List String → Option (List (String × Val) × List String)
+  | 0, ws => some ([], ws)
+  | n + 1, name :: v :: ws =>
+    match decodeStr name, parseVal v, parseFieldsN n ws with
+    | some (some nm), some v, some (fs, rest) => some ((nm, v) :: fs, rest)
+    | some none, _, _ => none
+    | _, _, _ => none
+  | _, _ => none
+
+def parseObjsN : Nat → List String → Option (List Obj × List String)
+  | 0, ws => some ([], ws)
+  | n + 1, k :: cls :: nf :: ws =>
+    match parseKind k, nf.toNat? with
+    | some k, some nf =>
+      match parseFieldsN nf ws with
+      | some (fs, rest) =>
+        match parseObjsN n rest with
+        | some (os, rest') => some ({ kind := k, cls := cls, fields := fs } :: os, rest')
+        | none => none
+      | none => none
+    | _, _ => none
+  | _, _ => none
+
+def parsePreN : Nat → List String → Option (List (Nat × PreTarget) × List String)
+  | 0, ws => some ([], ws)
+  | n + 1, i :: t :: ws =>
+    let tgt : Option PreTarget :=
+      match t.toList with
+      | ['+'] => some .fresh
+      | 'r' :: ds => (String.ofList ds).toNat?.map PreTarget.existing
+      | '=' :: ds => (String.ofList ds).toNat?.map PreTarget.sameAs
+      | _ => none
+    match i.toNat?, tgt, parsePreN n ws with
+    | some i, some t, some (ps, rest) => some ((i, t) :: ps, rest)
+    | _, _, _ => none
+  | _, _ => none
+
+def showObj (o : Obj) : String :=
+  " ".intercalate ([showKind o.kind, o.cls, toString o.fields.length] ++
+    o.fields.flatMap (fun f => [encodeStr (some f.1), showVal f.2]))
+
+def showErr : Err → String
+  | .fuel => "err fuel" | .dangling => "err dangling" | .malformed => "err malformed"
 
 def handle (ws : List String) : String :=
   match ws with
+  | "copy" :: root :: npre :: rest =>
+    match parseVal root, npre.toNat? with
+    | some root, some npre =>
+      match parsePreN npre rest with
+      | some (pre, nobj :: rest') =>
+        match nobj.toNat? with
+        | some nobj =>
+          match parseObjsN nobj rest' with
+          | some (objs, []) =>
+            let h : Heap := objs.toArray
+            match copyRoute h pre root with
+            | .error e => showErr e
+            | .ok (s, v) =>
+              let new := (s.h.toList.drop h.size)
+              " ".intercalate (["ok", showVal v, toString new.length] ++ new.map showObj)
+          | _ => "bad-op"
+        | none => "bad-op"
+      | _ => "bad-op"
+    | _, _ => "bad-op"
+  | "extract" :: sup :: rest =>
+    match parseTree rest with
+    | some (tree, more) =>
+      let n := tree.size
+      if more.length != 2 * n || (sup != "0" && sup != "1") then "bad-op" else
+      let el := (more.take n).toArray
+      let tl := (more.drop n).toArray
+      (extract (sup == "1") (fun i => tl[i]?.getD "?") (fun i => el[i]?.getD "?") tree).render
+    | none => "bad-op"
   | _ => "bad-op"
 
 def main : IO Unit := do driverLoop (← IO.getStdin) handle
